@@ -146,6 +146,20 @@ def reactor_trace(r, label, truth=None, user=-1):
     for ai, a in enumerate(r.assemblies):
         for ri, reg in enumerate(a.region):
             if reg.is_rodded:
+                # pin bundle and bypass gaps: the per-kind requirement at a
+                # temperature against the limit probed from the real update
+                # at that temperature
+                dzp = max(float(r.req_dz), 1e-6)
+                for T in (float(r.inlet_temp), float(a._estimated_T_out)):
+                    trs = [_op.bundle_trace(dassh, reg, dzp, T, 'x')]
+                    if reg.n_bypass > 0 and np.sum(reg.byp_flow_rate) > 0:
+                        trs += _op.probe_bypass(dassh, reg, dzp, T, 'x')
+                    for tr_ in trs:
+                        for e in tr_['ev']:
+                            if e['e'] == 'Limit':
+                                ev.append({'e': 'RegionLimit', 'a': ai + 1,
+                                           'r': ri, 'code': e['codeLimit'],
+                                           'true': e['trueLimit']})
                 continue
             code = float(dassh.region_unrodded.calculate_min_dz(
                 reg, r.inlet_temp, a._estimated_T_out, r._is_adiabatic)[0])
